@@ -5,7 +5,7 @@ import sys
 
 HERE = os.path.dirname(os.path.dirname(os.path.abspath(__file__)))
 sys.path.insert(0, HERE)
-from harness.registry import PENDING_REASON, NOT_APPLICABLE  # noqa
+from harness.registry import PENDING_REASON, NOT_APPLICABLE, READY  # noqa
 import ast
 
 
@@ -36,7 +36,7 @@ for p in props:
     pid = p["id"]
     have = os.path.exists(os.path.join(HERE, "harness", "props", pid.lower() + ".py")) and \
         os.path.exists(os.path.join(HERE, "lean", "WB", "Props", pid + ".lean"))
-    if pid in CLAIMS and have:
+    if pid in CLAIMS and have and pid in READY:
         c = CLAIMS[pid]
         checks.append({
             "property_id": pid,
